@@ -767,7 +767,7 @@ W_STOPPING = ([(1, []), (2, [(7, 'RUNNING', True)]), (3, [])],
     ('LocalChange', 2, 7, 'STOPPING', True), ('Deliver', 2, 1), ('Deliver', 2, 3)] + _admit(3, 2))
 
 
-# Replication proofs: lost_stopping_residue (F11 seen from C12)
+# Replication proofs: lost_stopping_cleared (F11, fixed by 04680dd: the lost instance leaves the running set)
 W_RESIDUE = (W_TRUTHS, _admit_self(1) + _admit_self(2) + _admit(2, 1) + _admit(1, 2) + [
     ('LocalChange', 2, 7, 'STOPPING', True), ('Deliver', 2, 1), ('Fail', 1, 2), ('InvalidateAt', 1, False)])
 
